@@ -59,7 +59,9 @@ class State:
 
 class SymX:
     def __init__(self, fn_node, decide=None, call_hook=None, attr_hook=None, init_env=None,
-                 max_paths=512, consts=None, follow_except=True):
+                 max_paths=512, consts=None, follow_except=True, unpack_hook=None, container_identity=True):
+        self.unpack_hook = unpack_hook
+        self.container_identity = container_identity
         self.fn = fn_node
         self.decide = decide
         self.max_paths = max_paths
@@ -102,6 +104,12 @@ class SymX:
         if isinstance(st, ast.Assign):
             self._record_calls(st.value, s, st)
             val = st.value
+            if self.unpack_hook is not None:
+                r = self.unpack_hook(st, s)
+                if r is not None:
+                    for t, f in r:
+                        self._assign_target(t, f, None, s, st)
+                    return [s]
             tupforms = None
             if isinstance(val, (ast.Tuple, ast.List)):
                 tupforms = [lin.form(e) for e in val.elts]
@@ -244,6 +252,10 @@ class SymX:
     def _assign_target(self, t, f, tupforms, s, st):
         lin = s.lin
         if isinstance(t, ast.Name):
+            v = getattr(st, 'value', None)
+            if self.container_identity and isinstance(v, (ast.List, ast.Dict, ast.Set, ast.ListComp, ast.DictComp, ast.SetComp)) \
+                    and isinstance(st, ast.Assign) and len(st.targets) >= 1 and not isinstance(st.targets[0], (ast.Tuple, ast.List)):
+                f = Form.atom(t.id)
             lin.env[t.id] = f
             if tupforms is not None:
                 s.tup[t.id] = tupforms
